@@ -2,7 +2,7 @@
 
 import ast
 
-from .. import factories, kernels as K
+from .. import factories, kernels as K, rules
 from ..alg import I, INV4PI, Poly, V
 from ..core import AnalysisError
 from ..src import arg_names, call_arg, unparse
@@ -146,6 +146,8 @@ def run(ctx):
 
 
 # ---------------------------------------------------------------- dispatch sites
+    rules.elements_adjacent_complete(ctx)  # the predicate that routes a pair to the singular rule (ADJ-9)
+
 
 DISPATCH_FILES = {
     "bempp_cl/api/operators/boundary/helmholtz.py": ("single_layer", "double_layer", "adjoint_double_layer", "hypersingular"),
